@@ -1,4 +1,5 @@
 import Amgcl.Model.Kernels
+import Amgcl.Proofs.RowGet
 import Mathlib.Algebra.BigOperators.Group.Finset.Basic
 import Mathlib.Algebra.BigOperators.Ring.Finset
 import Mathlib.Tactic.Ring
@@ -7,7 +8,8 @@ import Mathlib.Tactic.Linarith
 Shared helper lemmas of the C08b work package (sort / sum / row-merge / diagonal / Gershgorin):
 the row denotation `rowGet` over an additive commutative monoid, `rowSorted` as `List.Pairwise`,
 access to the rows of a well-formed matrix.  Everything lives in `Amgcl.K2` so that the names
-cannot clash with the helper lemmas of the other C08 proof files.
+cannot clash with the helper lemmas of the other C08 proof files; `rowGet_cons'`, `rowGet_append`,
+`rowGet_perm`, … come from `Amgcl/Proofs/RowGet.lean`.
 -/
 namespace Amgcl.K2
 open Amgcl
@@ -20,25 +22,9 @@ variable {K : Type} [AddCommMonoid K]
 theorem rowGet_cons (cv : Nat × K) (t : Row K) (j : Nat) :
     rowGet (cv :: t) j = if cv.1 = j then cv.2 + rowGet t j else rowGet t j := rfl
 
-theorem rowGet_cons' (cv : Nat × K) (t : Row K) (j : Nat) :
-    rowGet (cv :: t) j = (if cv.1 = j then cv.2 else 0) + rowGet t j := by
-  rw [rowGet_cons]; split <;> simp
-
-theorem rowGet_append (r s : Row K) (j : Nat) : rowGet (r ++ s) j = rowGet r j + rowGet s j := by
-  induction r with
-  | nil => simp
-  | cons cv t ih => simp only [List.cons_append, rowGet_cons', ih, add_assoc]
-
 theorem rowGet_singleton (cv : Nat × K) (j : Nat) :
     rowGet [cv] j = if cv.1 = j then cv.2 else 0 := by
   rw [rowGet_cons']; simp
-
-theorem rowGet_perm {r s : Row K} (h : r.Perm s) (j : Nat) : rowGet r j = rowGet s j := by
-  induction h with
-  | nil => rfl
-  | cons x _ ih => simp only [rowGet_cons', ih]
-  | swap x y l => simp only [rowGet_cons', ← add_assoc]; rw [add_comm (ite _ _ _) (ite _ _ _)]
-  | trans _ _ ih1 ih2 => exact ih1.trans ih2
 
 theorem rowGet_eq_zero {r : Row K} {j : Nat} (h : j ∉ r.map (·.1)) : rowGet r j = 0 := by
   induction r with
@@ -161,19 +147,8 @@ open Finset
 
 /-- a list sum over the stored entries of a row is the dense sum over the denoted row -/
 theorem listSum_eq_sum (r : Row K) (f : Nat → K) (m : Nat) (h : ∀ cv ∈ r, cv.1 < m) :
-    (r.map (fun cv => cv.2 * f cv.1)).sum = ∑ k ∈ range m, rowGet r k * f k := by
-  induction r with
-  | nil => simp
-  | cons cv t ih =>
-    have hcv : cv.1 < m := h cv (List.mem_cons_self)
-    have ht : ∀ c ∈ t, c.1 < m := fun c hc => h c (List.mem_cons_of_mem _ hc)
-    simp only [List.map_cons, List.sum_cons, rowGet_cons']
-    rw [ih ht]
-    have : ∑ k ∈ range m, ((if cv.1 = k then cv.2 else 0) + rowGet t k) * f k
-        = ∑ k ∈ range m, ((if cv.1 = k then cv.2 * f k else 0) + rowGet t k * f k) := by
-      apply sum_congr rfl; intro k _; split <;> simp [add_mul]
-    rw [this, sum_add_distrib, sum_ite_eq]
-    simp [hcv]
+    (r.map (fun cv => cv.2 * f cv.1)).sum = ∑ k ∈ range m, rowGet r k * f k :=
+  sum_map_mul_eq_sum_rowGet r f m h
 
 end sums
 
